@@ -19,7 +19,8 @@ ALPHA = {
 }
 SPECIAL = set("\\\"'${}#/*")
 ENV_FRAGS = ["${a}", "${n}", "${n:-d}", "${a:-d}", "${e}", "${e:-d}", "${n:d}", "${n:-}", "${}", "${:-d}", "${m}", "${n:-${a}}",
-             "${n:-a b}", "${a", "$a", "$", "${n:-\"}", "${n:-'}", "${a}${a}", "${n:-\\n}", "${g}"]
+             "${n:-a b}", "${a", "$a", "$", "${n:-\"}", "${n:-'}", "${a}${a}", "${n:-\\n}", "${g}",
+             "${n:-a:b}", "${n:-:}", "${n:-x:-y}", "${a:-x:-y}", "${n:-http://h:80}", "${n:-a-b}", "${n:--}", "${n:-:-}"]
 ESC_FRAGS = ["\\n", "\\t", "\\r", "\\b", "\\f", "\\a", "\\e", "\\v", "\\\\", "\\\"", "\\'", "\\q", "\\$", "\\{", "\\ ", "\\\n", "\\0",
              "\\7", "\\07", "\\007", "\\0007", "\\101", "\\377", "\\400", "\\777", "\\8", "\\18", "\\1234", "\\x41", "\\x4", "\\x414",
              "\\xg", "\\x", "\\x00", "\\xff", "\\xFF", "\\X41", "\\N"]
